@@ -1,3 +1,5 @@
+//go:build !vsnative
+
 // Package vrand stands in for math/rand in transformed code: every draw is an
 // explorer choice over a small set of representative values.
 package vrand
